@@ -10,7 +10,8 @@ feature prev.end+1 .. next.start-1 per same-seqid pair with at least one base be
 attributes = per-key sorted union (numeric when every value is a number and numeric_sort is on), update_attributes,
 several IDs joined by '-'; N-1 law; inputs and database unchanged.
 
-TODO hooks (database-backed clauses, to be added on top of this module): `create_introns`, `create_splice_sites`.
+database-backed clauses (`create_introns`, `create_splice_sites`): gene models imported with the real code, the yielded
+features compared with the gaps / two-base sites computed from the exon coordinates, and with the model (DbExport).
 """
 import itertools
 import re
